@@ -118,3 +118,24 @@ Proof.
     destruct res as [x|err]; [contradiction|]. destruct Rl as [me [rep E]]. rewrite E. exact I.
 Qed.
 Print Assumptions C05_statement_runs_never_abort.
+
+(* a top-level definition of a function with an expression body never drives the session into a fault: the
+   tree is refused for size or yields a value — no abort, no exit, no runtime error, no exhausted budget *)
+Require Import Calc.Session Calc.StmtDef.
+Theorem C05_definition_never_faults : forall B t f ps body lc mc c m,
+  bready B mc c m -> m_fp m = [] -> ncs (mc_cs mc) + 1 < 4294967296 ->
+  strewrite t = Some (NAssign (NName f) (NFunction ps body lc)) ->
+  wfb (NAssign (NName f) (NFunction ps body lc)) = true ->
+  LExprSem.lpure (repeat VNil (List.length ps)) body = true -> lc = Z.of_nat (List.length ps) ->
+  bop_of_name f = None -> f <> "read"%string ->
+  match snd (run_tree false mc t) with
+  | TRefused | TValue _ => True
+  | _ => False
+  end.
+Proof.
+  intros B t f ps body lc mc c m Hr Hfp Hbig Hst Hwb Hp Hlc Hb Hrd.
+  destruct (def_step B t f ps body lc mc c m Hr Hfp Hbig Hst Hwb Hp Hlc Hb Hrd) as [Ref|[c' [m' (Hv & _)]]].
+  - rewrite Ref. exact I.
+  - cbv zeta in Hv. rewrite Hv. exact I.
+Qed.
+Print Assumptions C05_definition_never_faults.
